@@ -107,19 +107,16 @@ def step (st : St) (line : String) : St × String :=
       let r := postRecvPlain st.rx c enc
       let implAcc := out = "acc"
       -- oracle: the set-based specification over the implementation's own verdicts
-      -- (secure unicast: exact; unsecured: what the property demands, with the restart rule --
-      -- silent for a first-timer below the restart point)
+      -- (secure unicast and unsecured with the restart rule: exact)
       let ora : Option String :=
         if st.kind = Kind.unicast then
           let want := specAccept st.acc c
           if want = implAcc then none
           else some s!"spec={verdict want} impl={out} accepted_so_far={st.acc.take 8}"
         else if st.kind = Kind.plain then
-          match specPlainDemand st.pspec c with
-          | some want =>
-            if want = implAcc then none
-            else some s!"unsecured spec={verdict want} impl={out} restart_point={st.pspec.floor} accepted_since={st.pspec.acc.take 8}"
-          | none => none
+          let want := specPlainAccept st.pspec c
+          if want = implAcc then none
+          else some s!"unsecured spec={verdict want} impl={out} accepted_since_restart={st.pspec.acc.take 8}"
         else none
       let st' := { st with rx := r.1, acc := if implAcc then c :: st.acc else st.acc,
                            pspec := specPlainNext st.pspec c implAcc }
